@@ -88,7 +88,7 @@ def checkRePair (maxchar input t bits rules seq : String) : String :=
 answers) against the hypotheses of `CSD.RPDAC.locate_represents` (`Represents`: well-formed rules,
 valid symbols, the i-th sequence expands to the i-th string) — and the model of the query layer run
 on those very structures against the real answers and the specification. -/
-def checkRpdac (strsHex queriesHex t rules seqs loc abs : String) : String :=
+def checkRpdac (strsHex queriesHex prefHex t rules seqs loc abs pre : String) : String :=
   let S : List Str := (splitComma strsHex).map unhex
   let Q : List Str := (splitComma queriesHex).map unhex
   let terminals := t.toNat?.getD 0
@@ -113,6 +113,20 @@ def checkRpdac (strsHex queriesHex t rules seqs loc abs : String) : String :=
   if modAbs != implAbs.map some then "V model-locate-differs-from-code-on-a-query" else
   if modLoc != (S.map fun s => some (Spec.locate S s)) then "V model-locate-differs-from-spec" else
   if modAbs != (Q.map fun q => some (Spec.locate S q)) then "V model-locate-differs-from-spec-on-a-query" else
+  -- prefix search: the model on the real structures vs the code's ranges vs the specification
+  let P : List Str := (splitComma prefHex).map unhex
+  let implPre := (splitComma pre).map fun e =>
+    match e.splitOn ":" with
+    | [a, b] => (a.toNat?.getD 0, b.toNat?.getD 0)
+    | _ => (0, 0)
+  let modPre := P.map fun p => RPDAC.locatePrefix d (nat p)
+  let specPre := P.map fun p =>
+    let ids := Spec.prefixIds S p
+    match ids.head?, ids.getLast? with
+    | some a, some b => some (a, b)
+    | _, _ => some (0, 0)
+  if modPre != implPre.map some then "V model-locatePrefix-differs-from-code" else
+  if modPre != specPre then "V model-locatePrefix-differs-from-spec" else
   "V ok"
 
 /-- bit `k` of the hex-encoded byte string -/
@@ -156,7 +170,7 @@ def runCheckStreams (c : Case) (emit : Nat → String → IO Unit) : IO Unit := 
     match op with
     | ["ctchk", kind, tbl] => emit k (checkCodeTable kind tbl)
     | ["rpchk", maxchar, input, t, bits, rules, seq] => emit k (checkRePair maxchar input t bits rules seq)
-    | ["rdchk", strs, qs, t, rules, seqs, loc, abs] => emit k (checkRpdac strs qs t rules seqs loc abs)
+    | ["rdchk", strs, qs, ps, t, rules, seqs, loc, abs, pre] => emit k (checkRpdac strs qs ps t rules seqs loc abs pre)
     | ["rdskip"] => emit k "V ok"
     | "bv" :: impl :: par :: n :: h :: _ => emit k (bvLine impl (par.toNat?.getD 0) (n.toNat?.getD 0) h)
     | "wt" :: _ :: syms :: _ => emit k (wtLine syms)
